@@ -130,6 +130,41 @@ func (f *failAfter) Read(p []byte) (int, error) {
 	return n, nil
 }
 
+// oneShot hands out data[:failAt] in chunks, reports err once together with the chunk that reaches failAt
+// (or with no bytes when failAt is 0), and carries on with the rest of the data afterwards, the way a
+// connection does after a deadline: the failure is reported once, it is the reader's own, and it ends ReadFrom.
+type oneShot struct {
+	b      []byte
+	pos    int
+	failAt int
+	err    error
+	fired  bool
+	r      *gen.Rand
+}
+
+func (o *oneShot) Read(p []byte) (int, error) {
+	if len(p) == 0 {
+		return 0, nil
+	}
+	end := len(o.b)
+	if !o.fired {
+		end = o.failAt
+	}
+	n := copy(p, o.b[o.pos:end])
+	if n > 1 && o.r.Bool() {
+		n = 1 + o.r.Intn(n)
+	}
+	o.pos += n
+	if !o.fired && o.pos == o.failAt {
+		o.fired = true
+		return n, o.err
+	}
+	if o.fired && o.pos == len(o.b) && n == 0 {
+		return 0, io.EOF
+	}
+	return n, nil
+}
+
 // stalling returns (0, nil) now and then, which io.Reader allows ("nothing happened, try again").
 type stalling struct {
 	r   io.Reader
@@ -158,7 +193,7 @@ func (tempErr) Error() string   { return "injected temporary packet-writer failu
 func (tempErr) Temporary() bool { return true }
 func (tempErr) Timeout() bool   { return true }
 
-const nReaderKinds = 8
+const nReaderKinds = 9
 
 func mkReader(kind int, data []byte, failR int, r *gen.Rand) (io.Reader, string) {
 	return mkReaderErr(kind, data, failR, r, errR)
@@ -193,6 +228,11 @@ func mkReaderErr(kind int, data []byte, failR int, r *gen.Rand, rerr error) (io.
 		return &chunked{src, r, 187}, "chunks always shorter than a packet"
 	case 7:
 		return &stalling{src, r}, "reader that sometimes returns (0, nil)"
+	case 8:
+		if failR >= 0 {
+			return &oneShot{b: append([]byte{}, data...), failAt: failR, err: rerr, r: r}, "reader that reports its failure once, with the bytes read so far, and then carries on"
+		}
+		return &chunked{src, r, 300}, "random chunks 1..300"
 	default:
 		return &chunked{oneByte{src}, r, 3}, "one byte at a time (nested)"
 	}
@@ -254,6 +294,8 @@ func doWrite(c *mon.Ctx, k, tail, failW, ad int, r *gen.Rand) {
 			c.Fail("Write:bad-length-not-rejected", fmt.Sprintf("a slice of %d bytes (not a multiple of 188) was not rejected up front: %s", len(data), wt.Got), wt)
 		}
 		c.Count("write.rejected_length")
+		// the adapter is as good as new after a rejected call
+		followUp(c, w, s, r, wt)
 		return
 	}
 	exp := k
@@ -496,7 +538,7 @@ func run(c *mon.Ctx) {
 			}
 		}
 	})
-	c.Exhaustive("ReadFrom: k 0..20 x failing write position -1..k x 4 tails x 7 reader kinds", int64(21*22/2+21)*28)
+	c.Exhaustive("ReadFrom: k 0..20 x failing write position -1..k x 4 tails x 9 reader kinds", int64(21*22/2+21)*36)
 	c.StreamSeedless("readfrom-write-faults", maxK+1, func(k int, r *gen.Rand) {
 		for failW := -1; failW <= k; failW++ {
 			for _, tail := range []int{0, 1, 187, 1 + r.Intn(187)} {
@@ -507,12 +549,12 @@ func run(c *mon.Ctx) {
 		}
 	})
 	kr := c.N(3, 10)
-	c.Exhaustive(fmt.Sprintf("ReadFrom: k 0..%d (+tail 0/95) x reader failure after every byte count x 5 reader kinds", kr), 0)
+	c.Exhaustive(fmt.Sprintf("ReadFrom: k 0..%d (+tail 0/95) x reader failure after every byte count x 6 reader kinds", kr), 0)
 	c.StreamSeedless("readfrom-read-faults", (kr+1)*2, func(i int, r *gen.Rand) {
 		k, tail := i/2, (i%2)*95
 		n := k*188 + tail
 		for failR := 0; failR <= n; failR++ {
-			for _, rk := range []int{0, 1, 2, 4, 5} {
+			for _, rk := range []int{0, 1, 2, 4, 5, 8} {
 				doReadFrom(c, k, tail, -1, failR, rk, rk%4, r)
 			}
 		}
